@@ -34,7 +34,14 @@ type Exec struct {
 	// type-invariant facts about values loaded while evaluating spec expressions
 	// (slice lengths are non-negative, references are allocated, ...); flushed into
 	// the path condition by the next assert/assume
+	localMode bool // the contract has keep clauses: joins are cut points, postconditions are checked per return
+	exitCheck func(f *frame, val Val, tag string)
+	entrySt   *State
+	retConds  []string
+	retCount  int
+	callBlock map[string]*ssa.BasicBlock // "callee#ordinal" -> block containing the call (for keep before/after)
 	pureMemo  map[string]Val
+	notedFacts map[string]bool
 	pending   []string
 	qsyms     []string // symbols of quantifier variables currently in scope
 }
@@ -43,6 +50,7 @@ type Options struct {
 	InlineDepth int
 	Unroll      int
 	Thorough    bool
+	GuardedMerge bool // merge array heap variables through guarded equalities instead of ite terms
 }
 
 type Closure struct {
@@ -54,6 +62,7 @@ type modTarget struct {
 	keys   []string // heap keys
 	sorts  []string
 	target string // ref term ("" = whole variable)
+	subkey string // mapkey(m,k): only the entry for this key of map `target` may change ("" = whole cell)
 	text   string
 }
 
@@ -61,6 +70,7 @@ type edgeIn struct {
 	from *ssa.BasicBlock
 	cond string
 	st   *State
+	ctl  string // path condition without the keep clauses assumed at cut points
 }
 
 type retInfo struct {
@@ -81,6 +91,8 @@ type loopInfo struct {
 	modKeys  map[string]bool
 	iter     *ssa.Range // map-range iterator advanced in this loop (if any)
 	measure0 []string
+	modT     []modTarget // resolved `loop N modifies` clause (targets evaluated at loop entry)
+	hasModT  bool
 }
 
 type frame struct {
@@ -101,6 +113,12 @@ type frame struct {
 	st       *State
 	dead     bool
 	unrollOf map[*ssa.BasicBlock]int
+	pcOut    map[*ssa.BasicBlock]string // path condition at the end of each executed block
+	stOut    map[*ssa.BasicBlock]*State // state at the end of each executed block (local mode)
+	ctl      string                     // like cur, but without keep clauses assumed at cut points
+	ctlOut   map[*ssa.BasicBlock]string
+	noCtl    bool
+	edgeCtl  string
 }
 
 type deferSite struct {
@@ -126,6 +144,9 @@ func (f *frame) flush() {
 		p := x.pending
 		x.pending = nil
 		f.cur = x.vc.Def("pc", "Bool", And(append([]string{f.cur}, p...)...))
+		if !f.noCtl && f.top && x.localMode {
+			f.ctl = x.vc.Def("ctl", "Bool", And(append([]string{f.ctl}, p...)...))
+		}
 	}
 }
 
@@ -146,6 +167,13 @@ func (x *Exec) noteLoaded(st *State, v Val) {
 			return
 		}
 	}
+	if x.notedFacts == nil {
+		x.notedFacts = map[string]bool{}
+	}
+	if x.notedFacts[a] {
+		return
+	}
+	x.notedFacts[a] = true
 	x.pending = append(x.pending, a)
 }
 
@@ -177,6 +205,9 @@ func (f *frame) assume(t string) {
 		return
 	}
 	f.cur = f.x.vc.Def("pc", "Bool", And(f.cur, t))
+	if !f.noCtl && f.top && f.x.localMode {
+		f.ctl = f.x.vc.Def("ctl", "Bool", And(f.ctl, t))
+	}
 }
 
 func (f *frame) safety(kind, desc, goal string, pos string) {
@@ -200,7 +231,7 @@ func (x *Exec) run(fn *ssa.Function, args []Val, free []Val, st *State, cond str
 		panic(unsupported("function without body: " + fn.String()))
 	}
 	f := &frame{x: x, fn: fn, regs: map[ssa.Value]Val{}, depth: depth, top: top, in: map[*ssa.BasicBlock][]edgeIn{},
-		loops: map[*ssa.BasicBlock]*loopInfo{}, backEdge: map[[2]*ssa.BasicBlock]bool{}, freeVars: free, unrollOf: map[*ssa.BasicBlock]int{}}
+		loops: map[*ssa.BasicBlock]*loopInfo{}, backEdge: map[[2]*ssa.BasicBlock]bool{}, freeVars: free, unrollOf: map[*ssa.BasicBlock]int{}, pcOut: map[*ssa.BasicBlock]string{}, stOut: map[*ssa.BasicBlock]*State{}, ctlOut: map[*ssa.BasicBlock]string{}}
 	for i, p := range fn.Params {
 		f.regs[p] = args[i]
 	}
@@ -214,7 +245,7 @@ func (x *Exec) run(fn *ssa.Function, args []Val, free []Val, st *State, cond str
 		f.collectNames()
 	}
 	order := f.blockOrder()
-	f.in[fn.Blocks[0]] = []edgeIn{{nil, cond, st}}
+	f.in[fn.Blocks[0]] = []edgeIn{{from: nil, cond: cond, st: st, ctl: cond}}
 	for _, b := range order {
 		f.execBlock(b)
 	}
@@ -234,7 +265,7 @@ func (f *frame) mergeReturns() runResult {
 	cond := x.vc.Def("ret", "Bool", Or(conds...))
 	var edges []edgeIn
 	for _, r := range f.rets {
-		edges = append(edges, edgeIn{nil, r.cond, r.st})
+		edges = append(edges, edgeIn{cond: r.cond, st: r.st})
 	}
 	st := x.mergeStates(edges)
 	val := f.rets[len(f.rets)-1].val
@@ -292,11 +323,22 @@ func (x *Exec) mergeStates(edges []edgeIn) *State {
 			out.heap[k] = terms[0]
 			continue
 		}
-		t := terms[len(terms)-1]
-		for i := len(terms) - 2; i >= 0; i-- {
-			t = Ite(edges[i].cond, terms[i], t)
+		if !strings.HasPrefix(sort, "(Array") || !x.opts.GuardedMerge {
+			t := terms[len(terms)-1]
+			for i := len(terms) - 2; i >= 0; i-- {
+				t = Ite(edges[i].cond, terms[i], t)
+			}
+			out.heap[k] = x.vc.Def("m."+k, sort, t)
+			continue
 		}
-		out.heap[k] = x.vc.Def("m."+k, sort, t)
+		// array-sorted heap variables are merged through a fresh constant with guarded
+		// equalities (path conditions are mutually exclusive), not through ite terms:
+		// ite over store chains makes the solvers' preprocessing explode
+		c := x.vc.Const("m."+k, sort)
+		for i := range terms {
+			x.vc.FactFor(c, Implies(edges[i].cond, Eq(c, terms[i])))
+		}
+		out.heap[k] = c
 	}
 	return out
 }
@@ -392,7 +434,33 @@ func (f *frame) execBlock(b *ssa.BasicBlock) {
 	for _, e := range edges {
 		conds = append(conds, e.cond)
 	}
-	f.cur = x.vc.Def(fmt.Sprintf("R.%s.b%d", f.fn.Name(), b.Index), "Bool", Or(conds...))
+	reach := Or(conds...)
+	if len(edges) > 1 {
+		// every path to a join passes through its immediate dominator: conjoin the path
+		// condition recorded there, so that the common history is asserted as unit facts
+		// instead of being hidden under one disjunction per earlier join
+		if d := b.Idom(); d != nil {
+			if pc, ok := f.pcOut[d]; ok {
+				reach = And(pc, reach)
+			}
+		}
+	}
+	f.cur = x.vc.Def(fmt.Sprintf("R.%s.b%d", f.fn.Name(), b.Index), "Bool", reach)
+	if f.top && x.localMode {
+		var cc []string
+		for _, e := range edges {
+			cc = append(cc, e.ctl)
+		}
+		c := Or(cc...)
+		if len(edges) > 1 {
+			if d := b.Idom(); d != nil {
+				if pc, ok := f.ctlOut[d]; ok {
+					c = And(pc, c)
+				}
+			}
+		}
+		f.ctl = x.vc.Def("ctl", "Bool", c)
+	}
 	f.st = x.mergeStates(edges)
 	f.curBlock = b
 	f.dead = false
@@ -424,6 +492,9 @@ func (f *frame) execBlock(b *ssa.BasicBlock) {
 	}
 	if li != nil {
 		f.loopHeader(li, phiVals)
+	} else if f.top && len(edges) > 1 && x.localMode {
+		f.keepAt(fmt.Sprintf("b%d", b.Index), x.prog.pos(firstPos(b)), b)
+		f.cutJoin(b, phiVals)
 	}
 	for _, in := range b.Instrs {
 		if _, ok := in.(*ssa.Phi); ok {
@@ -431,6 +502,14 @@ func (f *frame) execBlock(b *ssa.BasicBlock) {
 		}
 		if f.dead {
 			return
+		}
+		switch in.(type) {
+		case *ssa.If, *ssa.Jump:
+			f.pcOut[b] = f.cur
+			if f.top && x.localMode {
+				f.stOut[b] = f.st.clone()
+				f.ctlOut[b] = f.ctl
+			}
 		}
 		f.execInstr(in)
 	}
@@ -451,7 +530,156 @@ func (f *frame) pushEdge(to *ssa.BasicBlock, cond string) {
 		f.loopBackEdge(f.loops[to], from, cond)
 		return
 	}
-	f.in[to] = append(f.in[to], edgeIn{from, cond, f.st})
+	f.in[to] = append(f.in[to], edgeIn{from: from, cond: cond, st: f.st, ctl: f.edgeCtl})
+}
+
+// keepAt asserts and then assumes the contract's `keep` clauses (join invariants) at a
+// control-flow join.  They summarise what every path so far has preserved, so that
+// later obligations need not re-derive it through exponentially many path combinations.
+func (f *frame) keepAt(where, pos string, at *ssa.BasicBlock) {
+	x := f.x
+	if x.top == nil || len(x.top.Keeps) == 0 {
+		return
+	}
+	env := x.baseEnv(f.st)
+	for i := range x.top.Keeps {
+		c := x.top.Keeps[i]
+		if !f.keepActive(&c, at) {
+			continue
+		}
+		t := x.evalClause(env, &c)
+		f.assert(fmt.Sprintf("keep.%s.%s", where, clauseName(&c, i)), "join invariant holds: "+c.Text, t, &c, pos)
+	}
+	all := map[string]bool{}
+	for k := range f.st.heap {
+		all[k] = true
+	}
+	for _, k := range sortedKeys(all) {
+		one := map[string]bool{k: true}
+		if af := x.autoFrame(f.st, one); af != "true" {
+			f.assert(fmt.Sprintf("keep.%s.frame.%s", where, k), "writes so far stay within the function's modifies clause: "+k, af, nil, pos)
+		}
+	}
+}
+
+// keepActive: `keep after X#n e` is a join invariant at the joins that can only be
+// reached after call X#n has been passed (or skipped), `keep before X#n e` at all
+// others; neither is active at the head of a loop that contains the call.
+func (f *frame) keepActive(c *Clause, at *ssa.BasicBlock) bool {
+	x := f.x
+	key := c.After
+	if key == "" {
+		key = c.Before
+	}
+	if key == "" {
+		return true
+	}
+	cb, ok := x.callBlock[key]
+	if !ok {
+		return c.Before != ""
+	}
+	if li := f.loops[at]; li != nil && li.body[cb] {
+		return false
+	}
+	r := f.reaches(cb, at)
+	if c.After != "" {
+		return r
+	}
+	return !r
+}
+
+// reaches: is there a (non-empty) path from a to b in the control-flow graph?
+func (f *frame) reaches(a, b *ssa.BasicBlock) bool {
+	if a == b {
+		return false
+	}
+	seen := map[*ssa.BasicBlock]bool{}
+	var dfs func(n *ssa.BasicBlock) bool
+	dfs = func(n *ssa.BasicBlock) bool {
+		if n == b {
+			return true
+		}
+		if seen[n] {
+			return false
+		}
+		seen[n] = true
+		for _, s := range n.Succs {
+			if dfs(s) {
+				return true
+			}
+		}
+		return false
+	}
+	return dfs(a)
+}
+
+// cutJoin turns a join into a cut point (local mode): everything the branches may have
+// changed is forgotten and only the keep clauses (just proved) and the function-level
+// frame are known afterwards.  Later obligations then depend on the straight-line
+// history and the keeps, not on the internals of every earlier branch.
+func (f *frame) cutJoin(b *ssa.BasicBlock, phiVals map[*ssa.Phi]Val) {
+	x := f.x
+	d := b.Idom()
+	base, ok := f.stOut[d]
+	pc, ok2 := f.ctlOut[d]
+	if !ok || !ok2 {
+		return
+	}
+	f.ctl = pc
+	baseAlloc := x.heap.alloc(base)
+	for _, k := range sortedKeys(f.st.heap) {
+		t := f.st.heap[k]
+		if bt, ok := base.heap[k]; ok && bt == t {
+			continue
+		}
+		if _, ok := base.heap[k]; !ok && t == x.heap.initial(k) {
+			continue
+		}
+		if k == allocKey {
+			continue
+		}
+		f.st.heap[k] = x.vc.Const("cut."+k, x.heap.sorts[k])
+	}
+	na := x.vc.Const("alloc.cut", "Int")
+	f.st.heap[allocKey] = na
+	f.cur = x.vc.Def("cut", "Bool", And(pc, app(">=", na, baseAlloc)))
+	f.ctl = f.cur
+	for _, k := range sortedKeys(f.st.heap) {
+		if nf := x.heap.nilFacts(k, f.st.heap[k]); nf != "true" && strings.HasPrefix(f.st.heap[k], "|cut.") {
+			f.assume(nf)
+		}
+	}
+	for p, v := range phiVals {
+		same := true
+		for _, e := range p.Edges {
+			if f.val(e).S != f.val(p.Edges[0]).S || len(v.Fs) > 0 {
+				same = false
+			}
+		}
+		if same {
+			continue
+		}
+		nv := x.fixPtrs(x.vc.freshVal(p.Type(), "cutv."+p.Name()))
+		f.regs[p] = nv
+		f.assume(x.heap.valAssume(f.st, nv))
+	}
+	// the keep clauses are assumed for the current path condition only: they are not
+	// carried into later cut points (there they are re-established on the then-current state)
+	f.noCtl = true
+	env := x.baseEnv(f.st)
+	for i := range x.top.Keeps {
+		c := x.top.Keeps[i]
+		if c.KF != "" || !f.keepActive(&c, b) {
+			continue
+		}
+		f.assume(x.evalClause(env, &c))
+	}
+	all := map[string]bool{}
+	for k := range f.st.heap {
+		all[k] = true
+	}
+	f.assume(x.autoFrame(f.st, all))
+	f.noCtl = false
 }
 
 // ---- loops ----
@@ -494,7 +722,18 @@ func (f *frame) loopHeader(li *loopInfo, phiVals map[*ssa.Phi]Val) {
 	pos := x.prog.pos(firstPos(li.header))
 	li.pre = f.st.clone()
 	li.modKeys = f.loopModKeys(li)
-	// 1. invariants hold on entry
+	// the loop's own frame (optional): targets are evaluated in the loop-entry state
+	if len(li.spec.Modifies) > 0 {
+		menv := f.invEnv(li, nil)
+		li.hasModT = true
+		li.modT = nil
+		for i := range li.spec.Modifies {
+			li.modT = append(li.modT, x.resolveModifies(menv, &li.spec.Modifies[i])...)
+		}
+		x.pending = nil
+	}
+	// 1. invariants hold on entry (the contract's keep clauses are invariants of every loop)
+	f.keepAt(fmt.Sprintf("loop%d.init", li.ordinal), pos, li.header)
 	env := f.invEnv(li, nil)
 	for i, inv := range li.spec.Invariants {
 		c := inv
@@ -533,7 +772,17 @@ func (f *frame) loopHeader(li *loopInfo, phiVals map[*ssa.Phi]Val) {
 		}
 		f.assume(x.evalClause(env, &c))
 	}
+	if x.top != nil {
+		kenv := x.baseEnv(f.st)
+		for i := range x.top.Keeps {
+			c := x.top.Keeps[i]
+			if c.KF == "" && f.keepActive(&c, li.header) {
+				f.assume(x.evalClause(kenv, &c))
+			}
+		}
+	}
 	f.assume(x.autoFrame(f.st, li.modKeys))
+	f.assume(x.loopFrame(li, f.st))
 	li.hdr = f.st.clone()
 	li.measure0 = nil
 	for i := range li.spec.Decreases {
@@ -597,8 +846,24 @@ func (f *frame) loopBackEdge(li *loopInfo, from *ssa.BasicBlock, cond string) {
 			f.assertNoAssume(name, "loop invariant preserved: "+pc.Text, t, &pc, pos)
 		}
 	}
+	if x.top != nil {
+		kenv := x.baseEnv(f.st)
+		for i := range x.top.Keeps {
+			c := x.top.Keeps[i]
+			if !f.keepActive(&c, li.header) {
+				continue
+			}
+			t := x.evalClause(kenv, &c)
+			f.assertNoAssume(fmt.Sprintf("keep.loop%d.step.%s", li.ordinal, clauseName(&c, i)), "join invariant preserved by the loop: "+c.Text, t, &c, pos)
+		}
+	}
 	if af := x.autoFrame(f.st, li.modKeys); af != "true" {
 		f.assert(fmt.Sprintf("frame.loop%d", li.ordinal), "writes in the loop stay within the function's modifies clause", af, nil, pos)
+	}
+	for _, k := range sortedKeys(li.modKeys) {
+		if lf := x.loopFrameKey(li, f.st, k); lf != "true" {
+			f.assertNoAssume(fmt.Sprintf("frame.loop%d.local.%s", li.ordinal, k), "writes in the loop stay within the loop's modifies clause: "+k, lf, nil, pos)
+		}
 	}
 	if len(li.spec.Decreases) > 0 {
 		// lexicographic decrease, each component bounded below by 0
@@ -760,18 +1025,62 @@ func (x *Exec) autoFrame(st *State, keys map[string]bool) string {
 	return And(cs...)
 }
 
+// loopFrame: cells allocated at loop entry and not named by `loop N modifies` keep
+// the value they had at loop entry.
+func (x *Exec) loopFrame(li *loopInfo, st *State) string {
+	var cs []string
+	for _, k := range sortedKeys(li.modKeys) {
+		cs = append(cs, x.loopFrameKey(li, st, k))
+	}
+	return And(cs...)
+}
+
+func (x *Exec) loopFrameKey(li *loopInfo, st *State, only string) string {
+	if !li.hasModT {
+		return "true"
+	}
+	var cs []string
+	preAlloc := x.heap.get(li.pre, allocKey, "Int")
+	for _, k := range []string{only} {
+		sort, ok := x.heap.sorts[k]
+		if !ok || k == allocKey || strings.HasPrefix(k, "X:iter") || strings.HasPrefix(k, "X:defer:") {
+			continue
+		}
+		cur, ok := st.heap[k]
+		if !ok {
+			continue
+		}
+		base := x.heap.get(li.pre, k, sort)
+		if cur == base {
+			continue
+		}
+		cs = append(cs, x.frameFormulaT(k, sort, cur, base, preAlloc, li.modT))
+	}
+	return And(cs...)
+}
+
 func (x *Exec) entryAlloc() string { return x.heap.get(x.entry, allocKey, "Int") }
 
 // frameFormula: cells of key k not covered by the modifies clause are equal in cur and init.
 func (x *Exec) frameFormula(k, sort, cur, init, alloc0 string) string {
+	return x.frameFormulaT(k, sort, cur, init, alloc0, x.modTargets)
+}
+
+func (x *Exec) frameFormulaT(k, sort, cur, init, alloc0 string, mts []modTarget) string {
 	var targets []string
+	type sub struct{ target, key string }
+	var subs []sub
 	whole := false
-	for _, mt := range x.modTargets {
+	isLen := strings.HasPrefix(k, "ML:")
+	for _, mt := range mts {
 		for _, mk := range mt.keys {
 			if mk == k {
-				if mt.target == "" {
+				switch {
+				case mt.target == "":
 					whole = true
-				} else {
+				case mt.subkey != "" && !isLen:
+					subs = append(subs, sub{mt.target, mt.subkey})
+				default:
 					targets = append(targets, mt.target)
 				}
 			}
@@ -790,7 +1099,25 @@ func (x *Exec) frameFormula(k, sort, cur, init, alloc0 string) string {
 	for _, t := range targets {
 		guards = append(guards, Not(Eq(r, t)))
 	}
-	return "(forall ((" + r + " Int)) " + Implies(And(guards...), Eq(Select(cur, r), Select(init, r))) + ")"
+	body := Eq(Select(cur, r), Select(init, r))
+	if len(subs) > 0 {
+		// maps of which only single entries may change: every other entry is unchanged
+		inner := sort[len("(Array Int ") : len(sort)-1] // (Array K V)
+		ksort := strings.Fields(strings.TrimPrefix(inner, "(Array "))[0]
+		if strings.HasPrefix(ksort, "(") {
+			ksort = "Int"
+		}
+		q := sym(x.vc.fresh("fk"))
+		var isSub []string
+		var qg []string
+		for _, sb := range subs {
+			isSub = append(isSub, Eq(r, sb.target))
+			qg = append(qg, Implies(Eq(r, sb.target), Not(Eq(q, sb.key))))
+		}
+		entry := "(forall ((" + q + " " + ksort + ")) " + Implies(And(qg...), Eq(Select(Select(cur, r), q), Select(Select(init, r), q))) + ")"
+		body = Ite(Or(isSub...), entry, body)
+	}
+	return "(forall ((" + r + " Int)) " + Implies(And(guards...), body) + ")"
 }
 
 // ---- value lookup ----
@@ -825,7 +1152,7 @@ func (x *Exec) funcID(fn *ssa.Function) string {
 	}
 	if _, ok := x.closures[id]; !ok {
 		x.closures[id] = &Closure{Fn: fn}
-		x.vc.Fact(app(">", id, "0"))
+		x.vc.FactFor(id, app(">", id, "0"))
 	}
 	return id
 }
